@@ -555,6 +555,35 @@ pub fn c11(c: &Case) {
             let pr = k.positioned_robot(q); for i in 0..6 { if pr.joints[i].transform != b[i].cast::<f32>() { bad.push("positioned link not at the stack's link pose".into()); } }
         }
     }
+    // the kinematic stack a constructor builds must be Tool{Base{OPW + limits}} with the GIVEN transforms: compared with that stack assembled by hand,
+    // for bases that are shifted only, turned only (translation exactly zero), tilted only, and both
+    {
+        use rs_opw_kinematics::tool::{Tool, Base};
+        let rot = |axis: usize, ang: f64| { let ax = match axis { 0 => nalgebra::Vector3::x_axis(), 1 => nalgebra::Vector3::y_axis(), _ => nalgebra::Vector3::z_axis() }; nalgebra::UnitQuaternion::from_axis_angle(&ax, ang) };
+        let bases = [Pose::translation(0.1, -0.2, 0.3), Pose::from_parts(nalgebra::Translation3::new(0.0, 0.0, 0.0), rot(2, 0.9)), Pose::from_parts(nalgebra::Translation3::new(0.0, 0.0, 0.0), rot(0, 0.35)),
+                     Pose::from_parts(nalgebra::Translation3::new(0.4, 0.0, -0.1), rot(1, -0.5))];
+        let tools = [Pose::translation(0.0, 0.0, 0.15), Pose::from_parts(nalgebra::Translation3::new(0.05, 0.0, 0.1), rot(1, 0.6))];
+        for (bi, base_t) in bases.iter().enumerate() { for (ti, tool_t) in tools.iter().enumerate() { for ctor in 0..2 {
+            let env = vec![CollisionBody { mesh: cube(0.05), pose: nalgebra::Isometry3::translation(9.0, 9.0, 9.0) }];
+            let meshes = || [mk_mesh(0.02), mk_mesh(0.02), mk_mesh(0.02), mk_mesh(0.02), mk_mesh(0.02), mk_mesh(0.02)];
+            let k = if ctor == 0 { KinematicsWithShape::new(p, cons, meshes(), mk_mesh(0.02), *base_t, mk_mesh(0.01), *tool_t, env, true) }
+                    else { KinematicsWithShape::with_safety(p, cons, meshes(), mk_mesh(0.02), *base_t, mk_mesh(0.01), *tool_t, env, SafetyDistances::standard(CheckMode::FirstCollisionOnly)) };
+            let reference = Tool { robot: std::sync::Arc::new(Base { robot: std::sync::Arc::new(OPWKinematics::new_with_constraints(p, cons)), base: *base_t }), tool: *tool_t };
+            for q in SEEDS.iter() {
+                tried += 1;
+                let what = format!("constructor {} with base #{} and tool #{}", if ctor == 0 { "new" } else { "with_safety" }, bi, ti);
+                let (a, b) = (iso_of(&k.forward(q)), iso_of(&reference.forward(q)));
+                if iso_diff(&a, &b).0 > 1e-9 || iso_diff(&a, &b).1 > 1e-9 { bad.push(format!("{}: forward differs from Tool{{Base{{robot}}}} built with the same transforms", what)); }
+                let (la, lb) = (k.forward_with_joint_poses(q), reference.forward_with_joint_poses(q));
+                for i in 0..6 { if iso_diff(&iso_of(&la[i]), &iso_of(&lb[i])).0 > 1e-9 { bad.push(format!("{}: link pose {} differs from the hand-built stack", what, i)); break; } }
+                let pose = reference.forward(q);
+                let (ia, ib) = (k.inverse_continuing(&pose, q), reference.inverse_continuing(&pose, q));
+                let want: Solutions = ib.into_iter().filter(|s| !k.collides(s)).collect();
+                if ia.len() != want.len() || ia.iter().zip(want.iter()).any(|(x, y)| !same_mod_2pi(x, y, 1e-7)) { bad.push(format!("{}: inverse_continuing returns {} answers, the hand-built stack gives {}", what, ia.len(), want.len())); }
+                let pr = k.positioned_robot(q); for i in 0..6 { if iso_diff(&iso_of(&pr.joints[i].transform.cast::<f64>()), &iso_of(&lb[i])).0 > 1e-5 { bad.push(format!("{}: positioned link {} not at the link pose of the hand-built stack", what, i)); break; } }
+            }
+        } } }
+    }
     println!("native_cases={}", tried); bad.dedup(); for b in bad.iter().take(5) { println!("diff={}", b); } println!("reproduced={}", !bad.is_empty());
 }
 
